@@ -32,7 +32,7 @@ CHECKS = {
         ref='§5 C19'),
     'C06': dict(
         engine='list',
-        technique='Lean 4 proof (one whole cycle per local maximum of the de-plateaued history; unique-top scan equivalence) + exact model/implementation correspondence + Rychlik's theorem via confluence of four-point extraction',
+        technique='Lean 4 proof (one whole cycle per local maximum of the de-plateaued history; unique-top scan equivalence) + exact model/implementation correspondence + the theorem of Rychlik via confluence of four-point extraction',
         text='Theorems for every history: each interior local maximum of the de-plateaued history yields exactly one whole Rychlik and one whole Johannesson cycle whose top is that maximum; the Johannesson bottom is the lowest de-plateaued sample since the history was last at or above the top (raw-history form, no uniqueness needed); with a unique top the Rychlik bottom is the higher of that value and its mirror image after the top (raw-history form); on every non-constant history closed at its global minimum the Rychlik table equals the rainflow table, equal-height peaks included (C06_rainflow_eq). The same predicates are evaluated on the implementation output over random and all small histories. Models tied to /repo/src by exact correspondence.',
         note='Trusted: Lean kernel + standard axioms; hand-written models FF.rychlik/FF.johannesson tied by sampled + small-scope-exhaustive exact correspondence. Known finding: constant histories.',
         ref='§5 C06'),
@@ -45,7 +45,7 @@ CHECKS = {
     'C03': dict(
         engine='list',
         technique='Lean 4 proof (filter invariance under the inductive refinement relation; commutation of every counter with range-similarities; time reversal of the reversal sequence) + metamorphic evaluation on the implementation',
-        text='Theorems about the code-shaped models, for all histories: inserting samples inside the interval of consecutive samples or repeating samples leaves the filter output and hence all seven cycle counts, the level-crossing count (incl. its default level grid) and the peak count unchanged; adding a constant leaves all range tables unchanged and scaling by c>0 scales every range by c (all seven counters; events of level crossing / peak counting move with the load); negation leaves simple-range, rainflow, range-pair, four-point unchanged; time reversal leaves the simple-range, rainflow, four-point and Rychlik tables unchanged (C03_reverse, ties included: four-point extraction is a confluent rewriting system and each of these histograms is 'extracted cycles plus a residue contribution'). The metamorphic relations are evaluated on the implementation for all nine functions.',
+        text='Theorems about the code-shaped models, for all histories: inserting samples inside the interval of consecutive samples or repeating samples leaves the filter output and hence all seven cycle counts, the level-crossing count (incl. its default level grid) and the peak count unchanged; adding a constant leaves all range tables unchanged and scaling by c>0 scales every range by c (all seven counters; events of level crossing / peak counting move with the load); negation leaves simple-range, rainflow, range-pair, four-point unchanged; time reversal leaves the simple-range, rainflow, four-point and Rychlik tables unchanged (C03_reverse, ties included: four-point extraction is a confluent rewriting system and each of these histograms is extracted cycles plus a residue contribution). The metamorphic relations are evaluated on the implementation for all nine functions.',
         note='Trusted: Lean kernel + standard axioms; models tied to /repo/src by the exact correspondence run in checks C02 and C05; integer scale factors and offsets on the dyadic grid stand for real c>0 and offsets (exact arithmetic).',
         ref='§5 C03'),
     'C04': dict(
